@@ -529,16 +529,38 @@ def map_children_rule(ctx: Ctx, rs: RuleSet, rule: str):
   mc = ctx.func(f'{DAG}.State.map_children')
   g = ctx.cfg(mc)
   val = mc.params[1]
-  rets = [g.stmt[n] for n in g.nodes() if isinstance(g.stmt[n], ast.Return)]
-  leaf = [r for r in rets if unparse(r.value) == val]
-  unfl = [r for r in rets if isinstance(r.value, ast.Call) and isinstance(
-      r.value.func, ast.Attribute) and r.value.func.attr == 'unflatten']
-  ok = len(leaf) == 1 and len(unfl) == 1 and len(rets) == 2
-  if ok:
-    u = unfl[0].value
-    ok = (len(u.args) == 2 and unparse(u.args[0]).endswith('.values') and
-          unparse(u.args[1]).endswith('.metadata') and
-          unparse(u.args[0]).split('.')[0] == unparse(u.args[1]).split('.')[0])
+  # the traverser looked up for type(value); None means "not traversable"
+  trav = [unparse(s.targets[0]) for s in walk_function(mc.node)
+          if isinstance(s, ast.Assign) and len(s.targets) == 1 and isinstance(
+              s.value, ast.Call) and unparse(s.value.func).endswith(
+                  'find_node_traverser') and unparse(
+                      s.value.args[0]) == f'type({val})']
+  none_tests = [n for n in g.nodes() if g.kind[n] == 'if' and trav and unparse(
+      g.stmt[n].test) == f'{trav[0]} is None']
+  ret_nodes = [n for n in g.nodes() if isinstance(g.stmt[n], ast.Return)]
+  n_unfl = 0
+  ok = bool(trav) and bool(ret_nodes)
+  for n in ret_nodes:
+    v = g.stmt[n].value
+    if isinstance(v, ast.Call) and isinstance(
+        v.func, ast.Attribute) and v.func.attr == 'unflatten' and unparse(
+            v.func.value) == trav[0] if trav else False:
+      n_unfl += 1
+      ok = ok and (len(v.args) == 2 and unparse(v.args[0]).endswith('.values')
+                   and unparse(v.args[1]).endswith('.metadata') and
+                   unparse(v.args[0]).split('.')[0] == unparse(
+                       v.args[1]).split('.')[0])
+    elif v is not None and unparse(v) == val:
+      # the value itself comes back only when it has no traverser
+      ok = ok and any(
+          g.dominated_by(n, {m}, labels=cfg_lib.NO_EXC) and
+          n in g.reach([x for x, lab in g.succ[m] if lab == 'true'],
+                       labels=cfg_lib.NO_EXC) and
+          n not in g.reach([x for x, lab in g.succ[m] if lab == 'false'],
+                           labels=cfg_lib.NO_EXC) for m in none_tests)
+    else:
+      ok = False
+  ok = ok and n_unfl >= 1
   rs.check(ok, rule, f'{mc.qualname}',
            'non-traversable values are returned unchanged; traversable ones '
            'are rebuilt by unflatten(result.values, result.metadata) of the '
